@@ -16,6 +16,7 @@ from cryptography.hazmat.primitives.asymmetric.utils import encode_dss_signature
 from vmc import core, enum
 from vmc.refs import sshsig as R
 from vmc.refs import ecdsa_nonce as EN
+from vmc.refs import ecdsa_point as EP
 import paramiko
 from paramiko import RSAKey, ECDSAKey, Ed25519Key, PKey
 from paramiko.message import Message
@@ -40,7 +41,14 @@ META = {
             "signatures whose r resp. s has every leading byte 0x01..0xff at its natural width, is one byte "
             "short (lead < / >= 0x80), all 7x7 pairs of the boundary classes {01,7f,80,81,ff,short-lo,short-hi} "
             "(thorough: s one byte short with lead 7f/80, two bytes short) must verify under every object of "
-            "the key; same cases for every VERIF_SEED.",
+            "the key; same cases for every VERIF_SEED.  Dimension 'public-point encoding classes of the key' "
+            "(ECDSA): keys enumerated by the number of leading zero bytes (0, 1, 2, ..) of the public coordinates "
+            "x and y - private scalars d = 1..50000 (P-256) / 16000 (P-384) / 6000 (P-521) (thorough: 500000 / "
+            "100000 / 60000) walked in chunks, the first scalar of every (x, y) class in a chunk obtained in every "
+            "way (from the cryptography key pair as generate() does, PEM file written by paramiko, OpenSSH private "
+            "file, the key's own public bytes via from_type_string / msg= / data=, the RFC 5656 public blob built "
+            "without paramiko): every way must yield a key object, every signing object x every object of the key "
+            "must verify, other data and the previously enumerated key must not.",
     "note": "exactly framed blobs that decode (RSA leading zeros, mpint leading zeros, -cert algorithm aliases) to "
             "the genuine signature value are an equivalence class for which True and False are both accepted; "
             "truncated / extended blobs (a lenient reader would zero-fill short strings and ignore trailing "
@@ -210,10 +218,13 @@ def run_verify(key, data, blob):
         return "exc", e
 
 
-def judge(acc, kid, oid, alg, data, blob, expect, family, genuine_blob, replay_extra=None, key_suffix=""):
-    """expect: 'true' | 'false' | 'either'.  Records a violation when the real code disagrees."""
-    kind = SPEC[kid][1]
-    origin, key = KEYS[kid][oid]
+def judge(acc, kid, oid, alg, data, blob, expect, family, genuine_blob, replay_extra=None, key_suffix="", objs=None):
+    """expect: 'true' | 'false' | 'either'.  Records a violation when the real code disagrees.
+    objs: the object table of `kid` when it is not one of KEYSPEC (enumerated ECDSA keys)."""
+    kind = SPEC[kid][1] if kid in SPEC else "ecdsa"
+    if objs is None:
+        objs = KEYS[kid]
+    origin, key = objs[oid]
     how, val = run_verify(key, data, blob)
     acc.ev()
     if how == "ret" and ((val is True and expect != "false") or (val is False and expect != "true")):
@@ -236,8 +247,8 @@ def judge(acc, kid, oid, alg, data, blob, expect, family, genuine_blob, replay_e
             iclass = "any-signature"
         key_s = "never-raises|%s.verify_ssh_sig|%s@%s|%s" % (cname, type(val).__name__, site_of(val), iclass)
         # is the failure specific to the way the object was obtained?
-        if origin != "public-bytes":
-            h2, v2 = run_verify(KEYS[kid]["from_type_string"][1], data, blob)
+        if origin != "public-bytes" and "from_type_string" in objs:
+            h2, v2 = run_verify(objs["from_type_string"][1], data, blob)
             if not (h2 == "exc" and type(v2) is type(val)):
                 key_s += "|verifier=" + origin
         acc.count("raised")
@@ -254,11 +265,11 @@ def judge(acc, kid, oid, alg, data, blob, expect, family, genuine_blob, replay_e
                       {"value": repr(val), "verifier": "%s/%s" % (kid, oid), "edit": family}, rep)
         return "nonbool"
     if expect == "true" and val is False:
-        acc.violation("genuine-rejected|%s.verify_ssh_sig|%s|verifier=%s%s" % (cname, alg or SPEC[kid][1], origin,
+        acc.violation("genuine-rejected|%s.verify_ssh_sig|%s|verifier=%s%s" % (cname, alg or kind, origin,
                                                                                  key_suffix),
                       {"verifier": "%s/%s" % (kid, oid), "case": family, "blob": blob.hex()}, rep)
     elif expect == "false" and val is True:
-        acc.violation("forgery-accepted|%s.verify_ssh_sig|%s|%s" % (cname, alg or SPEC[kid][1], family.split("@")[0]),
+        acc.violation("forgery-accepted|%s.verify_ssh_sig|%s|%s" % (cname, alg or kind, family.split("@")[0]),
                       {"verifier": "%s/%s" % (kid, oid), "case": family, "blob": blob.hex(),
                        "genuine": genuine_blob.hex() if genuine_blob else None}, rep)
     return val
@@ -597,6 +608,107 @@ def work_sigints(item, acc):
                         "signers": [x[0] for x in signers], "verifiers": ["%s/%s" % v for v in verifiers]})
 
 
+# ----------------------------------------------------------------------------------------------
+# dimension "public-point encoding classes of the key": ECDSA keys enumerated by the number of leading
+# zero bytes of the public coordinates x and y (vmc/refs/ecdsa_point.py) - private scalars d = 1, 2, 3, ..
+# in chunks; the first scalar of every class met in a chunk becomes a key that is obtained in every way.
+POINT_CHUNK = {256: 2500, 384: 1000, 521: 500}
+POINT_CAP = {"quick": {256: 50000, 384: 16000, 521: 6000},
+             "thorough": {256: 500000, 384: 100000, 521: 60000}}
+FIRST_OFFSET = 10 ** 9
+POINT_WAY = {"reloaded": "private-file(pem)", "openssh-file": "private-file(openssh)",
+             "from_type_string": "public-bytes(asbytes)", "msg": "public-bytes(asbytes)",
+             "data": "public-bytes(asbytes)", "ref-bytes": "public-bytes(reference-blob)"}
+
+
+def point_msgs():
+    return [b"a", core.filler(100, 3511)]
+
+
+def point_kid(bits, d):
+    return "ec%d-scalar-%d" % (bits, d)
+
+
+def point_objs(bits, d):
+    """All ways of obtaining an object for the P-<bits> key with private scalar d.
+    -> ({oid: (origin class, key object)}, [(oid, origin, exception)] for the ways that raised)."""
+    curve = EN.BY_BITS[bits]
+    priv = EP.private_key(curve, d)
+    nums = priv.public_key().public_numbers()
+    base = ECDSAKey(vals=(priv, priv.public_key()))     # what ECDSAKey.generate() does with its fresh scalar
+    objs = {"generated": ("generated", base)}
+    fails = []
+
+    def attempt(oid, origin, fn):
+        try:
+            objs[oid] = (origin, fn())
+        except Exception as e:   # noqa - every way of obtaining the key has to work
+            fails.append((oid, origin, e))
+
+    attempt("reloaded", "private-file", lambda: ECDSAKey.from_private_key(io.StringIO(_pem_of(base))))
+    attempt("openssh-file", "private-file",
+            lambda: ECDSAKey.from_private_key(io.StringIO(EP.openssh_private_text(priv))))
+    # public counterpart from the key's own public bytes ...
+    attempt("from_type_string", "public-bytes", lambda: PKey.from_type_string(base.get_name(), base.asbytes()))
+    attempt("msg", "public-bytes", lambda: ECDSAKey(msg=Message(base.asbytes())))
+    attempt("data", "public-bytes", lambda: ECDSAKey(data=base.asbytes()))
+    # ... and from the public blob as anyone else would write it (RFC 5656 3.1, built without paramiko)
+    attempt("ref-bytes", "public-bytes", lambda: ECDSAKey(data=EP.pub_blob(curve, nums.x, nums.y)))
+    return objs, fails
+
+
+def work_points(item, acc):
+    _, bits, lo, hi = item
+    curve = EN.BY_BITS[bits]
+    found = EP.first_per_class(curve, lo, hi)
+    acc.count("pubpoint_scalars_scanned", hi - lo)
+    prev = None
+    for cls in sorted(found, key=lambda c: found[c][0]):
+        d, x, y = found[cls]
+        kid = point_kid(bits, d)
+        lab = EP.class_label(cls)
+        suffix = "|point:" + EP.coarse(cls)
+        rx = {"mode": "pubpoint", "bits": bits, "scalar": d}
+        acc.count("pubpoint_keys")
+        acc.count("pubpoint_class_%s_%s" % (curve, lab.replace(",", "")))
+        acc.cmax("max_pubpoint_zero_bytes_%s" % curve, max(cls))
+        acc.cmax("max_pubpoint_first|%s|%s" % (curve, lab), FIRST_OFFSET - d)    # = minimum over the chunks
+        objs, fails = point_objs(bits, d)
+        for oid, origin, e in fails:
+            acc.ev()
+            acc.violation("key-object-unobtainable|ECDSAKey|%s|%s@%s%s"
+                          % (POINT_WAY[oid], type(e).__name__, site_of(e), suffix),
+                          {"exception": _short(e), "key": kid, "class": lab, "x": "%x" % x, "y": "%x" % y},
+                          dict(rx, kid=kid, oid=oid, expect="obtainable"))
+        for soid, (sorigin, signer) in objs.items():
+            if not signer.can_sign():
+                continue
+            for mi, data in enumerate(point_msgs()):
+                try:
+                    blob = signer.sign_ssh_data(data).asbytes()
+                except Exception as e:   # noqa
+                    acc.violation("sign-raises|ECDSAKey.sign_ssh_data|%s|signer=%s%s" % (type(e).__name__, sorigin, suffix),
+                                  {"exception": repr(e), "signer": "%s/%s" % (kid, soid)},
+                                  dict(rx, kid=kid, oid=soid, alg=None, data_hex=data.hex(), expect="signs"))
+                    continue
+                for oid2 in objs:
+                    fam = "genuine(signer=%s; point %s)" % (sorigin, lab)
+                    judge(acc, kid, oid2, None, data, blob, "true", fam, blob, rx, suffix, objs=objs)
+                    acc.nt(("p", bits, d, soid, mi, oid2))
+                    other = data + b"\x00"
+                    judge(acc, kid, oid2, None, other, blob, "false", "different-data", blob, rx, objs=objs)
+                if prev is not None:
+                    for oid2 in prev[1]:
+                        judge(acc, prev[0], oid2, None, data, blob, "false", "different-key", blob,
+                              dict(rx, scalar=prev[2]), objs=prev[1])
+                        acc.nt(("pk", bits, d, soid, mi, prev[2], oid2))
+                if cls[0] + cls[1] >= 2 and soid == "generated" and mi == 0 and len(acc.samples) < 6:
+                    acc.sample({"case": "public-point class " + lab, "curve": curve, "private_scalar": d,
+                                "x": "%x" % x, "y": "%x" % y, "signers": [o for o in objs if objs[o][1].can_sign()],
+                                "verifiers": sorted(objs), "blob": blob.hex()})
+        prev = (kid, objs, d)
+
+
 def full_for(tier, mi, oid):
     """complete single-point edit set?  thorough: always.  quick: message b"a", and not for the two
     public-bytes objects that are built by the very same constructor call as from_type_string."""
@@ -643,6 +755,8 @@ def work(item, acc):
         work_genuine(item, acc)
     elif item[0] == "sigints":
         work_sigints(item, acc)
+    elif item[0] == "points":
+        work_points(item, acc)
     else:
         work_edits(item, acc)
 
@@ -659,7 +773,11 @@ def main(tier):
         "encoding classes: case = (ECDSA key, class of r, class of s) signed with an enumerated nonce by every "
         "signing object through the real sign_ssh_data, each distinct blob verified under every object of "
         "the key (counters sigints_*; classes per key in extra.signature_integer_classes); nontrivial += "
-        "distinct (key, class pair, verifier object)",
+        "distinct (key, class pair, verifier object); dimension public-point encoding classes of the key: case = "
+        "(curve, private scalar chosen as first of its (leading zero bytes of x, of y) class in a chunk of the "
+        "scalar walk, way of obtaining the signer, message, way of obtaining the verifier) (counters pubpoint_*; "
+        "classes and first scalars in extra.public_point_classes); nontrivial += distinct such cases and distinct "
+        "(signature, object of the previously enumerated key)",
         ["cryptography / PyNaCl primitives trusted", "ECDSA signatures are randomised by the library: "
          "edit positions are fixed (shape-normalised) but the signature bytes differ between runs",
          "exactly framed blobs that denote the genuine (algorithm, value) pair in another integer encoding (RSA "
@@ -697,7 +815,29 @@ def main(tier):
                 items.append(("zero-tail", kid, alg, 1))
                 if tier != "quick" and kind == "ed25519":
                     items.append(("zero-tail", kid, alg, 2))
+    for bits in (521, 384, 256):
+        cap, step = POINT_CAP[tier][bits], POINT_CHUNK[bits]
+        for lo in range(1, cap + 1, step):
+            items.append(("points", bits, lo, min(cap + 1, lo + step)))
     ck.merge(core.pmap(items, work))
+    first = {}
+    for name in [n for n in ck.acc.counters if n.startswith("max_pubpoint_first|")]:
+        _, curve, lab = name.split("|")
+        first.setdefault(curve, {})[lab] = FIRST_OFFSET - ck.acc.counters.pop(name)
+    ck.extra["public_point_classes"] = {
+        "definition": "class of a key = (leading zero bytes of x, leading zero bytes of y) in the fixed-width point "
+                      "encoding 04||x||y of its public blob; keys = private scalars d = 1, 2, 3, .. up to the cap, "
+                      "walked in chunks; the first scalar of every class met in a chunk is obtained in every way "
+                      "(ECDSAKey(vals=..) as generate() does, PEM private file written by paramiko, OpenSSH private "
+                      "file, public bytes of asbytes() via from_type_string / msg= / data=, reference public blob) "
+                      "and every signing object x every object must verify (2 messages), other data and the "
+                      "previous enumerated key must not",
+        "scalars_per_curve": {EN.BY_BITS[b]: POINT_CAP[tier][b] for b in POINT_CAP[tier]},
+        "chunk": {EN.BY_BITS[b]: POINT_CHUNK[b] for b in POINT_CHUNK},
+        "first_scalar_of_each_class_reached": {c: dict(sorted(first[c].items())) for c in sorted(first)},
+        "classes_with_a_coordinate_two_or_more_bytes_short_not_reached": sorted(
+            "%s %s" % (c, w) for c in first for w in ("x2", "y2")
+            if not any(w in lab.split(",") or (w[0] + "3") in lab.split(",") for lab in first[c]))}
     ck.extra["signature_integer_classes"] = {
         "definition": "class of a positive integer = (bytes short of its natural width, leading byte of its minimal "
                       "big-endian form); r classes from nonces k_j = SHAKE-256('C35 nonce j') mod (n-1) + 1, j=1,2,.. (r = x(kG) mod n), s classes from messages "
@@ -713,7 +853,29 @@ def main(tier):
 def replay(rec):
     r = rec["replay"]
     kid = r["kid"]
-    objs = make_objs(kid, r.get("gen_pem"))
+    if r.get("mode") == "pubpoint":
+        objs, fails = point_objs(r["bits"], r["scalar"])
+        nums = objs["generated"][1].verifying_key.public_numbers()
+        print("P-%d key with private scalar %d: x=%x y=%x (class %s)" % (
+            r["bits"], r["scalar"], nums.x, nums.y,
+            EP.class_label(EP.point_class(EN.BY_BITS[r["bits"]], nums.x, nums.y))))
+        print("public bytes asbytes():  %s" % objs["generated"][1].asbytes().hex())
+        print("public bytes reference:  %s" % EP.pub_blob(EN.BY_BITS[r["bits"]], nums.x, nums.y).hex())
+        for oid, origin, e in fails:
+            print("obtaining the key object via %s (%s) raised %r at %s" % (oid, origin, e, site_of(e)))
+        if r["expect"] == "obtainable":
+            return 1 if any(oid == r["oid"] for oid, _, _ in fails) else 0
+        if r["oid"] not in objs:
+            return 1
+        if r["expect"] == "signs":
+            try:
+                objs[r["oid"]][1].sign_ssh_data(bytes.fromhex(r["data_hex"]))
+            except Exception as e:   # noqa
+                print("sign_ssh_data raised", repr(e))
+                return 1
+            return 0
+    else:
+        objs = make_objs(kid, r.get("gen_pem"))
     origin, key = objs[r["oid"]]
     data = bytes.fromhex(r["data_hex"])
     print("key %s obtained via %s (%s): %r" % (kid, r["oid"], origin, type(key).__name__))
